@@ -103,6 +103,13 @@ def check_call(u, fn, args, self_obj=None, extra_env=None):
       rs[exc] = bool(eval(code, env))
     except Exception:
       rs[exc] = None
+  mr = {}
+  for exc, cond in u.get('may_raise', {}).items():
+    code, _ = compile_clause(cond)
+    try:
+      mr[exc] = bool(eval(code, env))
+    except Exception:
+      mr[exc] = None
   try:
     result = fn(*args) if self_obj is None else fn(self_obj, *args)
     if u.get('yields'):
@@ -113,6 +120,10 @@ def check_call(u, fn, args, self_obj=None, extra_env=None):
     raise Violation('assert', 0, str(ex)[:200], 'assertion failed in the real code')
   except Exception as ex:
     name = type(ex).__name__
+    if name in mr:
+      if mr[name] is False:
+        raise Violation('raise-only-if', name, u['may_raise'][name], 'raised %s: %s' % (name, str(ex)[:200]))
+      return 'ok', ('raise', name)
     if name in rs:
       if rs[name] is False:
         raise Violation('raise-only-if', name, u['raises'][name], 'raised %s: %s' % (name, str(ex)[:200]))
